@@ -64,6 +64,11 @@ def base_models(feature, arg=None, extra=None):
             # count_distinct measure without sql counts the primary key: whatever the format does with the key must keep that number
             dims.append(Dimension(name="id2", type="numeric", sql="id"))
             mets.append(Metric(name="uniq", agg="count_distinct"))
+        elif f == "dim_shadows_column":
+            # a computed dimension NAMED like a physical column (amount := COALESCE(amount, 0)) next to measures over the bare column: a format that
+            # refers to fields by name must not turn the measure's column into the dimension's expression (NULL amounts make AVG / MIN / COUNT differ)
+            dims.append(Dimension(name="amount", type="numeric", sql="COALESCE(amount, 0)"))
+            mets += [Metric(name="avg_amt", agg="avg", sql="amount"), Metric(name="min_amt", agg="min", sql="amount"), Metric(name="n_amt", agg="count", sql="amount")]
         elif f == "user_text":
             # user-written SQL text that happens to contain punctuation other formats use as syntax (a regex character class holds "_.")
             dims.append({"regex_class": Dimension(name="st_clean", type="categorical", sql="regexp_replace(status, '[a-z0-9_.-]', '')")}[a])
@@ -84,7 +89,7 @@ def base_models(feature, arg=None, extra=None):
 
 FEATURES = [("agg", a) for a in AGGS] + [("count_star", None), ("count_col_named", None), ("filtered", None), ("expression", None), ("dim_type", "boolean"), ("dim_type", "numeric"), ("dim_type", "categorical_expr"),
             ("granularity", "hour"), ("granularity", "week"), ("granularity", "month"), ("composite_pk", None), ("sql_model", None),
-            ("relationship", "many_to_one"), ("relationship", "one_to_many"), ("relationship", "one_to_one"), ("segment", None), ("key_dim_alias", None)]
+            ("relationship", "many_to_one"), ("relationship", "one_to_many"), ("relationship", "one_to_one"), ("segment", None), ("key_dim_alias", None), ("dim_shadows_column", None)]
 PAIRS = [(("agg", "avg"), ("filtered", None)), (("agg", "count_distinct"), ("composite_pk", None)), (("filtered", None), ("sql_model", None)), (("expression", None), ("dim_type", "boolean")),
          (("agg", "min"), ("granularity", "month")), (("count_col_named", None), ("filtered", None)), (("segment", None), ("sql_model", None)), (("agg", "max"), ("relationship", "one_to_many"))]
 
